@@ -204,6 +204,13 @@ def chi2_isf(q, df):
 _CACHE = {}
 
 
+def _shared_theta(pheno):
+    """a population parameter shared by an individual parameter with ETA (visited first) and one without."""
+    m = remove_iiv(pheno, 'VC')
+    st = m.statements.reassign('TVCL', 'POP_CL*WGT*(1 + COVAPGR)')
+    return m.replace(statements=st).update_source()
+
+
 def corpus():
     """name -> dict(model, est, tot, nomega_est, ids, obs, mixed) with independently derived counts."""
     if _CACHE:
@@ -218,6 +225,7 @@ def corpus():
         'pheno,COVAPGR fixed': fix_parameters(pheno, ['COVAPGR']),
         'pheno-iiv(CL)': remove_iiv(pheno, 'CL'),
         'pheno,combined error': set_combined_error_model(pheno),
+        'pheno,shared theta': _shared_theta(pheno),
     }
     # (random, fixed) for the mixed BIC, by hand from the control streams; a list = admissible readings
     mixed = {
@@ -227,6 +235,8 @@ def corpus():
         'pheno,COVAPGR fixed': [(4, 1)],
         'pheno-iiv(CL)': [(3, 2)],          # CL without ETA: POP_CL fixed
         'pheno,combined error': [(5, 2)],
+        # COVAPGR enters CL (with ETA) and VC (whose ETA is removed): it is random; POP_VC and sigma are fixed
+        'pheno,shared theta': [(3, 2)],
         'pheno_linear': [(3, 0), (2, 1)],   # $PRED: Y carries ETAs -> sigma random; (2,1) if sigma is read as fixed
     }
     data = {}
